@@ -1,3 +1,4 @@
+import sys
 # C06 — mapreduce accounts for every file of every server under any scheduling.
 import os, re
 from lib import vf, srv
@@ -33,7 +34,9 @@ def generate(rng, tier):
         if interim:
             sizes = [rng.choice([12000, 16000])] + sizes[:3]      # ~3-4 s at the aggregator's pace: two or three interim results
             if i % 8 == 7:
-                sizes = sizes[:1]     # one read command only: nothing can arrive late, the total must be exact
+                # one read command only: nothing can arrive late, the total must be exact; long enough for several interim
+                # results however fast or loaded the machine is
+                sizes = [rng.choice([20000, 30000])]
         payloads = [("map select count($line) from . group by $hostname %slogformat generickv" % ("interval 1 " if interim else "")).encode().hex()]
         nonl = interim and i % 8 == 7          # the long file's last line is not newline-terminated (it still counts)
         for k, sz in enumerate(sizes):
@@ -57,10 +60,18 @@ def generate(rng, tier):
                 os.symlink("nowhere-%d" % i, ref)
             payloads.append(("cat: %s regex:noop " % ref).encode().hex())
         # every third session shares its cat limiter with the sessions running next to it (the server-wide limit)
-        cases.append({"kind": "server", "payloads": payloads, "cat_limit": rng.choice([1, 2, 3]), "private_limiter": i % 3 != 1,
-                      "gap_ms": rng.choice([0, 0, 0, 1, 10]), "read_delay_us": rng.choice([0, 0, 200]),
+        cases.append({"kind": "server", "payloads": payloads, "cat_limit": rng.choice([1, 2, 3]),
+                      "private_limiter": i % 3 != 1 or (interim and i % 8 == 7),      # (the paced sessions do not hold up their neighbours)
+                      "gap_ms": rng.choice([0, 0, 0, 1, 10]),
+                      "read_delay_us": rng.choice([0, 0, 200]),
+                      # the single-file interim sessions do not rely on lasting longer than the interval (a 30 000-line file takes
+                      # between 0.3 and 13 s depending on who wins the race between reader and aggregator): the harness asks the
+                      # aggregator for an interim result every 2 ms, through the method its own interval timer calls
+                      "serialize_every_us": 2000 if interim and i % 8 == 7 else 0,
                       # an upper bound only (sessions end by themselves): the aggregator handles ~2 700 lines/s when idle
-                      "wait_ms": 20000 + 6 * sum(sizes), "_sizes": sizes})
+                      # (sharing the limiter: the neighbours' files come first)
+                      "wait_ms": 20000 + 6 * sum(sizes) + (0 if i % 3 != 1 else 60000), "_sizes": sizes,
+                      "_single_interim": interim and i % 8 == 7, "_nonl": nonl})
     for i in range(12 if tier == "quick" else 300):
         cases.append({"kind": "client", "servers": rng.choice([2, 6, 24, 48]), "messages": rng.choice([20, 100, 300]),
                       "reporter_us": rng.choice([0, 10, 50, 500]), "hold_us": 0})
@@ -89,6 +100,28 @@ def run_impl(cases, tier):
         for k, (r, info) in ex.map(run, range(shards)):
             for j, x in zip(chunks[k], r):
                 obs[si[j]] = x if x is not None else {"lost": True, "stderr": info["stderr"][-400:]}
+    # single-file interim sessions exist to see results serialised WHILE the file is read: when a run was too fast for that
+    # (fewer than two interim messages before the final one) the session is repeated with a file four times as long
+    for i in si:
+        c = cases[i]
+        if not c.get("_single_interim"):
+            continue
+        for _ in range(1):
+            o = obs[i]
+            if os.environ.get("VERIF_DEBUG"):
+                print("C06 single interim session %d: %s lines, %d aggregate messages" % (
+                    i, c["_sizes"], len([f for f in (o or {}).get("frames") or [] if AGG.match(bytes.fromhex(f))])), file=sys.stderr)
+            if o is None or o.get("lost") or len([f for f in o.get("frames") or [] if AGG.match(bytes.fromhex(f))]) >= 3:
+                break
+            path = bytes.fromhex(c["payloads"][1]).decode().split(" ")[1]
+            sz = c["_sizes"][0] * 4
+            body = "".join("k=v%d\n" % j for j in range(sz))
+            with open(path, "w") as f:
+                f.write(body[:-1] if c.get("_nonl") else body)
+            c["_sizes"] = [sz]
+            c["wait_ms"] = 20000 + 6 * sz
+            r, info = vf.harness("session", [{k: v for k, v in c.items() if not k.startswith("_") and k != "kind"}], timeout=1500)
+            obs[i] = r[0] if r and r[0] is not None else {"lost": True, "stderr": info["stderr"][-400:]}
     res, _ = vf.harness_parallel("maprclient", [{k: v for k, v in cases[i].items() if k != "kind"} for i in ci], shards=4)
     for i, r in zip(ci, res):
         obs[i] = r
